@@ -1,1 +1,378 @@
-/-! C03 — property theorems (none yet). -/
+import Req.Props.C04
+/-!
+C03 — a truncated, over-long or spliced body is never reported as success; a broken connection
+is not reused.  HTTP/1.1 part, on the whole-stream model `Req.H1.parseResponse` whose stream
+argument means "exactly these bytes, then the connection ends (EOF or reset)".
+
+* `cut_never_success` — if a stream holds a complete response with a declared length or chunked
+  framing (and nothing after it), then for EVERY strict prefix the outcome is an error: from
+  the call (`reject`) or from reading the body (`ok = false`).  No serialiser is assumed: the
+  statement covers every accepted byte string, hence every message any origin can produce.
+* `cut_delivers_prefix` — at every cut (any framing) the response head is either refused or the
+  same head, and the bytes handed out before the error are a prefix of the true body: nothing
+  padded, nothing spliced in.
+* `declared_length_exact`, `length_short_is_error` — Content-Length bodies: exactly `n` bytes
+  or an error; surplus bytes stay in the stream (`overlong_not_delivered`).
+* `broken_not_reused`, `reject_not_reused`, `saw_eof_not_reused`,
+  `close_delimited_reuse_never` — the keep-alive decision of `readLoop`.
+-/
+namespace Req.Props.C03
+open Req.Proto Req.H1 Req.Props.C04
+
+theorem readBody_chunked_data {B : Nat} {m : Msg} (s : Bytes) (hf : m.framing = .chunked) :
+    (readBody B m s).data = (decodeChunked B s).1 := by
+  unfold readBody
+  simp only [hf]
+  cases hd : decodeChunked B s with
+  | mk d e =>
+    cases e with
+    | none => rfl
+    | some r =>
+      simp only
+      cases readTrailer B (declMap m.trailerDecl) r with
+      | none => rfl
+      | some p => rfl
+
+theorem readBody_data_prefix (B : Nat) (m : Msg) (s t : Bytes) :
+    (readBody B m s).data <+: (readBody B m (s ++ t)).data := by
+  cases hfr : m.framing with
+  | none => simp [readBody, hfr]
+  | untilClose => simp [readBody, hfr]
+  | length n =>
+    unfold readBody
+    simp only [hfr]
+    split
+    · next hle =>
+      have hle' : n ≤ s.length + t.length := by omega
+      simp [hle', List.take_append_of_le_length hle]
+    · next hlt =>
+      have hle : s.length ≤ n := by omega
+      have : s <+: (s ++ t).take n := by
+        rw [List.take_append, List.take_of_length_le hle]
+        exact List.prefix_append _ _
+      split
+      · exact this
+      · exact List.prefix_append _ _
+  | chunked =>
+    rw [readBody_chunked_data s hfr, readBody_chunked_data (s ++ t) hfr]
+    exact chunkLoop_data_prefix (s.length + 1) B 0 s t ((s ++ t).length + 1) (by simp)
+
+/-- **cut_delivers_prefix.** Cut the stream of an accepted response anywhere: the call either
+fails, or returns the same head and hands out a prefix of the true body. -/
+theorem cut_delivers_prefix {isHead : Bool} {B : Nat} {s : Bytes} {m : Msg} {b : BodyRes}
+    (h : parseResponse isHead B s = .resp m b) (k : Nat) :
+    parseResponse isHead B (s.take k) = .reject ∨
+    ∃ b', parseResponse isHead B (s.take k) = .resp m b' ∧ b'.data <+: b.data := by
+  unfold parseResponse at h ⊢
+  cases hp : parseHead isHead (s.take k) with
+  | none => left; rfl
+  | some q =>
+    obtain ⟨m', r'⟩ := q
+    right
+    have hs : s = s.take k ++ s.drop k := (List.take_append_drop k s).symm
+    have hfull := head_deterministic_end hp (s.drop k)
+    rw [← hs] at hfull
+    simp only [hfull, Outcome.resp.injEq] at h
+    obtain ⟨rfl, rfl⟩ := h
+    exact ⟨_, rfl, readBody_data_prefix B _ r' (s.drop k)⟩
+
+/-- **cut_never_success.** A response with declared-length or chunked framing (or no body) that
+ends exactly where the stream ends — in particular every complete response with nothing after
+it: every strict prefix followed by end-of-input is an error outcome. -/
+theorem cut_never_success {isHead : Bool} {B : Nat} {s : Bytes} {m : Msg} {b : BodyRes}
+    (h : parseResponse isHead B s = .resp m b)
+    (hf : m.framing ≠ .untilClose) (hrest : b.rest = [])
+    (k : Nat) (hk : k < s.length) :
+    (parseResponse isHead B (s.take k)).isSuccess = false := by
+  cases hcut : parseResponse isHead B (s.take k) with
+  | reject => rfl
+  | resp m' b' =>
+    cases hb : b'.ok with
+    | false => simp [Outcome.isSuccess, hb]
+    | true =>
+      exfalso
+      -- the cut response has the same head …
+      rcases cut_delivers_prefix h k with hr | ⟨b'', hr, _⟩
+      · rw [hr] at hcut; cases hcut
+      · rw [hr] at hcut
+        simp only [Outcome.resp.injEq] at hcut
+        obtain ⟨rfl, rfl⟩ := hcut
+        -- … so extending it back to `s` leaves the dropped bytes unread: contradiction
+        have hs : s = s.take k ++ s.drop k := (List.take_append_drop k s).symm
+        have hext := parse_deterministic_end hr hb hf (s.drop k)
+        rw [← hs, h] at hext
+        simp only [Outcome.resp.injEq] at hext
+        have : b.rest = b''.rest ++ s.drop k := by rw [hext.2]
+        rw [hrest] at this
+        have hnil : s.drop k = [] := by
+          have := congrArg List.length this
+          simp at this
+          exact List.eq_nil_of_length_eq_zero (by simp; omega)
+        have : (s.drop k).length = s.length - k := List.length_drop
+        rw [hnil] at this
+        simp at this
+        omega
+
+/-- A complete 5-byte Content-Length response; every one of its 42 strict prefixes fails. -/
+example : ∀ k, k < 43 → (parseResponse false 4096 (List.take k
+    [72,84,84,80,47,49,46,49,32,50,48,48,32,79,75,13,10,
+     67,111,110,116,101,110,116,45,76,101,110,103,116,104,58,32,53,13,10,13,10,
+     104,101,108,108,111])).isSuccess = false := by decide
+
+/-- Chunked with a trailer: `HTTP/1.1 200 OK / Transfer-Encoding: chunked // 2 hi 0 X: y //`. -/
+example :
+    let s : Bytes := [72,84,84,80,47,49,46,49,32,50,48,48,32,79,75,13,10,
+      84,114,97,110,115,102,101,114,45,69,110,99,111,100,105,110,103,58,32,99,104,117,110,107,101,100,13,10,13,10,
+      50,13,10,104,105,13,10,48,13,10,88,58,32,121,13,10,13,10]
+    (parseResponse false 4096 s).isSuccess = true ∧
+    ∀ k, k < s.length → (parseResponse false 4096 (s.take k)).isSuccess = false := by decide
+
+/-! ### serialised chunked bodies -/
+
+/-- Every strict prefix of what the chunked writer produces for ANY split of a body into
+non-empty chunks (followed by the final CRLF) is an error for the body reader, and what was
+handed out before the error is a prefix of the body. -/
+theorem serialized_chunked_cut {B : Nat} (hB : 18 ≤ B) {m : Msg} (hf : m.framing = .chunked)
+    (chunks : List Bytes) (hne : ∀ c ∈ chunks, c ≠ []) (hsz : ∀ c ∈ chunks, c.length < 2 ^ 61)
+    (k : Nat) (hk : k < (encodeChunked chunks ++ [CR, LF]).length) :
+    (readBody B m ((encodeChunked chunks ++ [CR, LF]).take k)).ok = false ∧
+    (readBody B m ((encodeChunked chunks ++ [CR, LF]).take k)).data <+: chunks.flatten := by
+  have hfull := chunked_body_roundtrip hB hf chunks hne hsz []
+  simp only [List.append_nil] at hfull
+  generalize hw : encodeChunked chunks ++ [CR, LF] = w at *
+  have hs : w = w.take k ++ w.drop k := (List.take_append_drop k w).symm
+  constructor
+  · cases hok : (readBody B m (w.take k)).ok with
+    | false => rfl
+    | true =>
+      exfalso
+      have hext := body_deterministic_end hok (by rw [hf]; simp) (w.drop k)
+      rw [← hs, hfull] at hext
+      have hrest := congrArg BodyRes.rest hext
+      simp only at hrest
+      have hnil : w.drop k = [] := by
+        have := congrArg List.length hrest
+        simp at this
+        exact List.eq_nil_of_length_eq_zero (by simp; omega)
+      have : (w.drop k).length = w.length - k := List.length_drop
+      rw [hnil] at this
+      simp at this
+      omega
+  · have := readBody_data_prefix B m (w.take k) (w.drop k)
+    rw [← hs, hfull] at this
+    exact this
+
+/-! ### the same at round-trip level (`readResponse`: informational responses skipped) -/
+
+theorem final_head_deterministic_end {fuel : Nat} {isHead : Bool} {s r : Bytes} {m : Msg}
+    (h : parseFinalHead fuel isHead s = some (m, r)) (t : Bytes) :
+    parseFinalHead fuel isHead (s ++ t) = some (m, r ++ t) := by
+  induction fuel generalizing s with
+  | zero => simp [parseFinalHead] at h
+  | succ f ih =>
+    simp only [parseFinalHead] at h ⊢
+    cases hp : parseHead isHead s with
+    | none => simp [hp] at h
+    | some q =>
+      obtain ⟨m1, r1⟩ := q
+      simp only [hp] at h
+      rw [head_deterministic_end hp t]
+      simp only
+      split at h
+      · next hc => rw [if_pos hc]; exact ih h
+      · next hc =>
+        rw [if_neg hc]
+        simp only [Option.some.injEq, Prod.mk.injEq] at h
+        obtain ⟨rfl, rfl⟩ := h
+        rfl
+
+theorem final_deterministic_end {isHead : Bool} {B : Nat} {s : Bytes} {m : Msg} {b : BodyRes}
+    (h : parseFinal isHead B s = .resp m b) (hok : b.ok = true)
+    (hf : m.framing ≠ .untilClose) (t : Bytes) :
+    parseFinal isHead B (s ++ t) = .resp m { b with rest := b.rest ++ t } := by
+  unfold parseFinal at h ⊢
+  cases hh : parseFinalHead 6 isHead s with
+  | none => simp [hh] at h
+  | some p =>
+    obtain ⟨m', r⟩ := p
+    simp only [hh, Outcome.resp.injEq] at h
+    obtain ⟨rfl, rfl⟩ := h
+    simp only [final_head_deterministic_end hh t]
+    rw [body_deterministic_end hok hf t]
+
+/-- `cut_delivers_prefix` for the response a round trip returns. -/
+theorem final_cut_delivers_prefix {isHead : Bool} {B : Nat} {s : Bytes} {m : Msg} {b : BodyRes}
+    (h : parseFinal isHead B s = .resp m b) (k : Nat) :
+    parseFinal isHead B (s.take k) = .reject ∨
+    ∃ b', parseFinal isHead B (s.take k) = .resp m b' ∧ b'.data <+: b.data := by
+  unfold parseFinal at h ⊢
+  cases hp : parseFinalHead 6 isHead (s.take k) with
+  | none => left; rfl
+  | some q =>
+    obtain ⟨m', r'⟩ := q
+    right
+    have hs : s = s.take k ++ s.drop k := (List.take_append_drop k s).symm
+    have hfull := final_head_deterministic_end hp (s.drop k)
+    rw [← hs] at hfull
+    simp only [hfull, Outcome.resp.injEq] at h
+    obtain ⟨rfl, rfl⟩ := h
+    exact ⟨_, rfl, readBody_data_prefix B _ r' (s.drop k)⟩
+
+/-- `cut_never_success` for the response a round trip returns (any number of informational
+responses in front): every strict prefix of the exchange is an error. -/
+theorem final_cut_never_success {isHead : Bool} {B : Nat} {s : Bytes} {m : Msg} {b : BodyRes}
+    (h : parseFinal isHead B s = .resp m b)
+    (hf : m.framing ≠ .untilClose) (hrest : b.rest = [])
+    (k : Nat) (hk : k < s.length) :
+    (parseFinal isHead B (s.take k)).isSuccess = false := by
+  cases hcut : parseFinal isHead B (s.take k) with
+  | reject => rfl
+  | resp m' b' =>
+    cases hb : b'.ok with
+    | false => simp [Outcome.isSuccess, hb]
+    | true =>
+      exfalso
+      rcases final_cut_delivers_prefix h k with hr | ⟨b'', hr, _⟩
+      · rw [hr] at hcut; cases hcut
+      · rw [hr] at hcut
+        simp only [Outcome.resp.injEq] at hcut
+        obtain ⟨rfl, rfl⟩ := hcut
+        have hs : s = s.take k ++ s.drop k := (List.take_append_drop k s).symm
+        have hext := final_deterministic_end hr hb hf (s.drop k)
+        rw [← hs, h] at hext
+        simp only [Outcome.resp.injEq] at hext
+        have : b.rest = b''.rest ++ s.drop k := by rw [hext.2]
+        rw [hrest] at this
+        have hnil : s.drop k = [] := by
+          have := congrArg List.length this
+          simp at this
+          exact List.eq_nil_of_length_eq_zero (by simp; omega)
+        have : (s.drop k).length = s.length - k := List.length_drop
+        rw [hnil] at this
+        simp at this
+        omega
+
+/-- `100 Continue` in front of a 2-byte Content-Length response: success only for the whole. -/
+example :
+    let s : Bytes := [72,84,84,80,47,49,46,49,32,49,48,48,32,67,13,10,13,10,
+      72,84,84,80,47,49,46,49,32,50,48,48,32,79,75,13,10,
+      67,111,110,116,101,110,116,45,76,101,110,103,116,104,58,32,50,13,10,13,10,104,105]
+    (parseFinal false 4096 s).isSuccess = true ∧
+    ∀ k, k < s.length → (parseFinal false 4096 (s.take k)).isSuccess = false := by decide
+
+/-! ### declared length -/
+
+theorem declared_length_exact {B : Nat} {m : Msg} {n : Nat} (s : Bytes)
+    (hf : m.framing = .length n) (hok : (readBody B m s).ok = true) :
+    (readBody B m s).data = s.take n ∧ (readBody B m s).data.length = n ∧
+    (readBody B m s).rest = s.drop n := by
+  unfold readBody at hok ⊢
+  simp only [hf] at hok ⊢
+  split
+  · next hle => simp; omega
+  · next hlt => simp [hlt] at hok
+
+theorem length_short_is_error {B : Nat} {m : Msg} {n : Nat} (s : Bytes)
+    (hf : m.framing = .length n) (hshort : s.length < n) :
+    (readBody B m s).ok = false ∧ (readBody B m s).data = s := by
+  unfold readBody
+  simp only [hf]
+  have : ¬ n ≤ s.length := by omega
+  simp [this]
+
+/-- Bytes beyond the declared length are never part of the body: they stay in the stream. -/
+theorem overlong_not_delivered {B : Nat} {m : Msg} {n : Nat} (body extra : Bytes)
+    (hf : m.framing = .length n) (hb : body.length = n) :
+    readBody B m (body ++ extra) = ⟨body, true, declMap m.trailerDecl, extra⟩ := by
+  unfold readBody
+  simp only [hf]
+  simp [← hb]
+
+/-! ### the connection after a failure -/
+
+theorem reject_not_reused (e : ReuseEnv) : connReusable .reject e = false := rfl
+
+/-- `pc.sawEOF`: once the conn's Read has returned io.EOF the connection never goes back to
+the pool, complete message or not. -/
+theorem saw_eof_not_reused (m : Msg) (e : ReuseEnv) (h : e.sawEOF = true) :
+    mayReuse m e = false := by
+  unfold mayReuse
+  simp [h]
+
+/-- The body of a response with a body did not end in io.EOF (read error, or closed early). -/
+theorem body_not_eof_not_reused (m : Msg) (e : ReuseEnv)
+    (hbody : (!e.isHead && m.contentLength != 0) = true) (hw : e.bodyWritable = false)
+    (hb : e.bodyEOF = false) : mayReuse m e = false := by
+  unfold mayReuse
+  simp only [hbody, hw, hb]
+  simp
+
+/-- **broken_not_reused.** Whatever the stream, if the outcome is not a success (the call
+failed, or the body read ended in an error) the connection is not reused. -/
+theorem broken_not_reused {isHead : Bool} {B : Nat} (s : Bytes) (e : ReuseEnv)
+    (he : e.isHead = isHead) (hw : e.bodyWritable = false)
+    (hfail : (parseResponse isHead B s).isSuccess = false) :
+    connReusable (parseResponse isHead B s) e = false := by
+  cases ho : parseResponse isHead B s with
+  | reject => rfl
+  | resp m b =>
+    rw [ho] at hfail
+    simp only [Outcome.isSuccess] at hfail
+    simp only [connReusable]
+    -- a body error needs a body reader: declared length or chunked, so `hasBody` holds
+    unfold parseResponse at ho
+    cases hp : parseHead isHead s with
+    | none => simp [hp] at ho
+    | some q =>
+      obtain ⟨m', r⟩ := q
+      simp only [hp, Outcome.resp.injEq] at ho
+      obtain ⟨rfl, rfl⟩ := ho
+      unfold parseHead at hp
+      cases hl : readLine s with
+      | none => simp [hl] at hp
+      | some p1 =>
+        obtain ⟨line, r1⟩ := p1
+        simp only [hl] at hp
+        cases hs : parseStatusLine line with
+        | none => simp [hs] at hp
+        | some sl =>
+          simp only [hs] at hp
+          cases hm : readMIMEHeader r1 with
+          | none => simp [hm] at hp
+          | some q2 =>
+            obtain ⟨hd, r2⟩ := q2
+            simp only [hm] at hp
+            cases ht : readTransfer isHead sl (fixPragmaCacheControl hd) with
+            | none => simp [ht] at hp
+            | some m0 =>
+              simp only [ht, Option.some.injEq, Prod.mk.injEq] at hp
+              obtain ⟨rfl, rfl⟩ := hp
+              obtain ⟨hch, _, hlen⟩ := framing_table ht
+              have hcl := chunked_content_length ht
+              apply body_not_eof_not_reused
+              · -- hasBody
+                simp only [he]
+                unfold readBody at hfail
+                cases hfr : m0.framing with
+                | none => simp [hfr] at hfail
+                | untilClose => simp [hfr] at hfail
+                | length n =>
+                  obtain ⟨_, hpos, hc, hH⟩ := hlen n hfr
+                  simp [hH, hc]; omega
+                | chunked =>
+                  obtain ⟨_, hH, _⟩ := hch.mp hfr
+                  simp [hH, hcl hfr]
+              · exact hw
+              · simp [hfail]
+
+/-- **close_delimited_reuse_never.** A response whose body is delimited by connection close
+never leaves a reusable connection. -/
+theorem close_delimited_reuse_never {isHead : Bool} {sl : StatusLine} {h0 : HeaderMap} {m : Msg}
+    (h : readTransfer isHead sl h0 = some m) (hf : m.framing = .untilClose) (e : ReuseEnv) :
+    mayReuse m e = false := by
+  obtain ⟨_, huc, _⟩ := framing_table h
+  obtain ⟨_, hclose, _⟩ := huc hf
+  unfold mayReuse
+  simp [hclose]
+
+end Req.Props.C03
